@@ -10,6 +10,7 @@ import (
 	"sort"
 	"strings"
 
+	"github.com/ochinchina/sipproxy/vrt"
 	"github.com/ochinchina/sipproxy/vrt/vnet"
 )
 
@@ -524,12 +525,110 @@ func c19Run(c *Ctx) {
 	}
 }
 
+// ---- a registration that overlaps a resolution (schedules) ----
+//
+// A running proxy has a rotation fed by a host name. The name's answer changes and one resolver
+// period elapses; at that very moment a second rotation registers for the same name (what startProxy
+// does for every listens entry - at start-up, which can easily last longer than one resolver period
+// when lookups are slow). All interleavings of the registration with the periodic resolution and its
+// notifications with at most `bound` deviations are explored; afterwards two more periods pass with
+// the answer unchanged. Both rotations must then hold exactly the resolved addresses, each once.
+
+type c19LateCase struct {
+	Late    string `json:"late_registration"` // shrink | grow | swap
+	Choices []int  `json:"choices"`
+}
+
+const c19LateName = "late.example.net"
+
+func c19LateExec(kind string, prefix []int) ([]vrt.Point, string, string) {
+	before := []string{"127.0.11.1", "127.0.11.2"}
+	after := map[string][]string{"shrink": {"127.0.11.2"}, "grow": {"127.0.11.1", "127.0.11.2", "127.0.11.3"}, "swap": {"127.0.11.2", "127.0.11.3"}}[kind]
+	cfg := RCfg{Name: "svc.example.com", Listens: []RListen{{Addr: "127.0.0.1", UDP: 5060, Backends: []string{"udp://" + c19LateName + ":7000"}}}}
+	preStart = func() { vnet.SetHost(c19LateName, false, before...) }
+	s := StartSim(ConfigYAML(cfg), SimOpts{})
+	preStart = nil
+	defer s.Close()
+	vnet.SetHost(c19LateName, false, after...)
+	s.W.Advance(2e9) // the periodic resolution is due, and has not run yet
+	s.W.SetExplore(vrt.KSched|vrt.KSelect, prefix)
+	var rr2 *RoundRobinBackend
+	var rerr error
+	vrt.Go(func() {
+		rr2, rerr = CreateRoundRobinBackend(":0", []string{"udp://" + c19LateName + ":7000"}, nil) // ":0" is what NewProxyItem passes without backend-local-address / -port
+	})
+	s.Run()
+	trace := s.W.TraceCopy()
+	s.W.SetExplore(0, nil)
+	for i := 0; i < 2; i++ {
+		s.W.Advance(2e9)
+		s.Run()
+	}
+	if vd := s.Verdict(); vd != "" {
+		return trace, "health", vd + "\n" + s.CrashDetail()
+	}
+	if rr2 == nil {
+		return trace, "late-registration-failed", fmt.Sprint(rerr)
+	}
+	var want []string
+	for _, a := range after {
+		want = append(want, a+":7000")
+	}
+	sort.Strings(want)
+	for i, rr := range append(s.RoundRobins()[:1:1], rr2) {
+		rot, ok := wbRotation(rr)
+		if !ok {
+			return trace, "", "" // the member list cannot be read on this tree: the BFS part judges by dispatches
+		}
+		got := append([]string(nil), rot.Members...)
+		sort.Strings(got)
+		if strings.Join(got, " ") != strings.Join(want, " ") {
+			which := []string{"the rotation that was running", "the rotation that registered while the resolution was due"}[i]
+			return trace, "rotation-differs-from-resolution", fmt.Sprintf("the name resolved to %v, then to %v; a second rotation registered for the name at the moment the periodic resolution was due (schedule %v); two periods later %s holds %v (expected %v)", before, after, prefix, which, rot.Members, want)
+		}
+	}
+	return trace, "", ""
+}
+
+func c19LateRun(c *Ctx) {
+	// by default the periodic goroutine (the older one) runs first: letting the registration start first, the
+	// resolution slip into it and the notification overtake it are three deviations
+	bound := 3
+	if c.Thorough() {
+		bound = 4
+	}
+	for _, kind := range []string{"shrink", "grow", "swap"} {
+		kind := kind
+		n, done := ExploreChoices(c, bound, func(prefix []int) []vrt.Point {
+			tr, cl, detail := c19LateExec(kind, prefix)
+			c.Res.Executions++
+			c.Res.Evaluations++
+			c.Res.Nontrivial++
+			c.Res.Transitions += int64(len(tr))
+			if cl != "" {
+				c.Violate(cl+"|late-registration|"+kind, cl, detail, c19LateCase{kind, prefix})
+			}
+			return tr
+		})
+		c.Res.States += n
+		c.Count("late_registration_schedules", n)
+		if !done {
+			c.Cap("late-registration schedules stopped by the internal deadline")
+		}
+	}
+}
+
 func init() {
 	addCheck(&Check{ID: "C19", Level: "model_checking", Collapse: true,
 		Rule:   "explicit-state BFS by replay TO A FIXPOINT over resolution outcomes {failure, success with every non-empty subset of 3 (thorough 4) addresses, in two answer orders; the universe contains an address that is a textual suffix of another and one that has another as a prefix} for one host name (state = resolver addresses x consecutive failures x rotation list and cursor x scripted outcome: finite), for udp and tcp backends and for a successful / failed initial resolution; and to depth 4 (thorough 5) for two host names with disjoint address universes feeding one rotation; the same again for backend lists that end with a static entry of the OTHER transport on another port (udp host name to a fixpoint, tcp and two host names to depth 4 / 3), and for a host name listed under both transports with the same port (depth 3-4; tracked finding, the search continues past its violating states), for one host name feeding the rotations of TWO listens entries (depth 3-4), and for two such entries of which the second cannot open its backend sockets (depth 3); the real periodic goroutine is driven by clock steps of one period and the world runs to quiescence between steps; the last step of every history happens with a transaction in flight (a request handed to a backend that has answered 100; its late 180 and 200 arrive after the step); after every step: for every rotation 2k+1 dispatches must reach exactly the resolved set and every resolved address is a member exactly once per configured transport, the proxy's attribution index equals it, a fabricated response from every address of the universe binds a dialog iff the address is a current backend, sockets / connections of vanished backends are closed; non-trivial = history longer than one outcome",
 		Assume: []string{"a successful lookup never returns an empty list (as net.LookupIP)", "overlapping address sets of two host names are outside the stated domain"},
-		Run:    c19Run,
+		Run:    func(c *Ctx) { c19Run(c); c19LateRun(c) },
 		Replay: func(c *Ctx, raw json.RawMessage) string {
+			var lc c19LateCase
+			if json.Unmarshal(raw, &lc) == nil && lc.Late != "" {
+				_, cl, _ := c19LateExec(lc.Late, lc.Choices)
+				return cl
+			}
 			var cs c19Case
 			json.Unmarshal(raw, &cs)
 			_, cl, d := c19Exec(cs)
